@@ -48,6 +48,10 @@ ASSUMPTIONS = [
     "exist: kernel 4 -> >= 7 coils, kernel 5 -> >= 6, kernel 6 -> >= 5; kernel 2-3 or 2 coils give errors of 0.1-0.6 "
     "because no null space exists), and in 3-D kernel_width = 4, calib_width = 12, coils >= 6, shape 12^3 (larger 3-D kernels cost "
     "> 3 s per case)",
+    "smooth-map families: (a) per coil exp(-|x-c|^2/w) * exp(i(p0 + p.x)) on the grid [-1,1]^d with c ~ U(-1.25,1.25)^d, "
+    "w ~ U(2.5,5), p ~ U(-1,1) rad; (b) sigpy.mri.sim.birdcage_maps with its default radius 1.5. Narrower bumps (w down to "
+    "1.5, centres out to 1.5) were measured at up to 0.0195 error inside the same parameter domain and are excluded to keep "
+    "a >= 2x margin to the 0.03 bound (worst measured over 1546 recovery cases: 0.0138)",
     "interior = central half of every image axis [n//4, n - n//4)",
     "3-D cases are limited to coils*kernel_width^3 <= 520 (one Gram update per kernel; cost)",
     "birdcage_maps (sigpy.mri.sim) is trusted as a generator of smooth maps; the FFT used for synthesis is numpy's",
